@@ -33,6 +33,7 @@ import DateutilVerif.Proofs.Islice
 import DateutilVerif.Proofs.QueryStops
 import DateutilVerif.Model.RRuleReplace
 import DateutilVerif.Generated.ReplaceProgram
+import DateutilVerif.Proofs.ScanPy
 import DateutilVerif.Proofs.RRuleReplaceOrig
 
 namespace C12
@@ -191,6 +192,106 @@ theorem replace_named_only_orig (a : RRule.Args) (r : RRule.Rule) (kw : RRule.Kw
     m.byhour = kw.byhour.getD o.byhour ∧ m.byminute = kw.byminute.getD o.byminute ∧
     m.bysecond = kw.bysecond.getD o.bysecond :=
   ⟨rfl, replace_named_only (RRule.origArgs a r) kw⟩
+
+/-! ### the query methods read from the source
+
+`Gen.rrbase_*` (Generated/RRBaseQueries.lean) are `rrulebase.__contains__`, `before`, `after`, `xafter`, `between`, `count`
+and `__getitem__` as `harness/translate_rrbase.py` parses them from /repo's working tree on every run: the loop bodies
+statement by statement, the `if inc:` split, the source selection, the returned value; for `__getitem__` the conditions
+of the list path, the clamp, the argument order of `islice`, the `next()` loop and its handler.  `ScanPy.run*`
+(Model/ScanPy.lean) is their meaning.  `gen_*_eq_model`: on EVERY sequence and argument the translated method equals the
+loops of Model/Queries.lean — the generator path (`gen`) and the cache-complete path (`fast`) — so every theorem above
+(`getitem_index`, `getitem_slice`, `contains_iff`, `count_eq_length`, `before_spec`, … and C11's `finished_answer`) holds of
+the code as written; a changed comparison, branch order, constant or statement breaks the obligation of that method (or the
+translation) on the next run.  Validated against the implementation by `query.tgen` / `query.tfast`. -/
+section Translated
+open ScanPy
+
+theorem runFast_select (m : Method) (e : Env) (L : List Int) (hs : m.source = .select) : runFast m e L = runGen m e L := by
+  simp [runFast, runGen, hs]
+
+/-- (translated source = model, both paths) -/
+theorem gen_before_eq_model (t : Int) (inc : Bool) (L : List Int) :
+    runGen Gen.rrbase_before { dt := t, inc := inc } L = gen (.before t inc) L ∧
+    runFast Gen.rrbase_before { dt := t, inc := inc } L = fast (.before t inc) L := by
+  have h := before_aux t inc L {}
+  have key : runGen Gen.rrbase_before { dt := t, inc := inc } L = gen (.before t inc) L := by
+    unfold runGen; rw [h]; simp [finish, Gen.rrbase_before, gen]
+  exact ⟨key, (runFast_select _ _ _ rfl).trans key⟩
+
+/-- (translated source = model, both paths) -/
+theorem gen_after_eq_model (t : Int) (inc : Bool) (L : List Int) :
+    runGen Gen.rrbase_after { dt := t, inc := inc } L = gen (.after t inc) L ∧
+    runFast Gen.rrbase_after { dt := t, inc := inc } L = fast (.after t inc) L := by
+  have h := after_aux t inc L {}
+  have key : runGen Gen.rrbase_after { dt := t, inc := inc } L = gen (.after t inc) L := by
+    unfold runGen; rw [h]; simp only [gen]; cases afterLoop t inc L <;> simp [finish, Gen.rrbase_after]
+  exact ⟨key, (runFast_select _ _ _ rfl).trans key⟩
+
+/-- (translated source = model, both paths) -/
+theorem gen_between_eq_model (a b : Int) (inc : Bool) (L : List Int) :
+    runGen Gen.rrbase_between { after := a, before := b, inc := inc } L = gen (.between a b inc) L ∧
+    runFast Gen.rrbase_between { after := a, before := b, inc := inc } L = fast (.between a b inc) L := by
+  obtain ⟨h1, h2⟩ := between_aux a b inc L {}
+  have key : finish Gen.rrbase_between (runLoop Gen.rrbase_between { after := a, before := b, inc := inc }
+      (bodyOf Gen.rrbase_between { after := a, before := b, inc := inc }) L {}) = .list (betweenLoop a b inc L false) := by
+    generalize runLoop Gen.rrbase_between { after := a, before := b, inc := inc } (bodyOf Gen.rrbase_between { after := a, before := b, inc := inc }) L {} = p at h1 h2
+    obtain ⟨r, s⟩ := p
+    simp only at h1 h2
+    subst h1
+    simp [finish, Gen.rrbase_between, h2]
+  have key2 : runGen Gen.rrbase_between { after := a, before := b, inc := inc } L = gen (.between a b inc) L := key
+  exact ⟨key2, (runFast_select _ _ _ rfl).trans key2⟩
+
+/-- (translated source = model, both paths) -/
+theorem gen_xafter_eq_model (t : Int) (n : Option Int) (inc : Bool) (L : List Int) :
+    runGen Gen.rrbase_xafter { dt := t, count := n, inc := inc } L = gen (.xafter t n inc) L ∧
+    runFast Gen.rrbase_xafter { dt := t, count := n, inc := inc } L = fast (.xafter t n inc) L := by
+  obtain ⟨h1, h2⟩ := xafter_aux t n inc L {}
+  have key : finish Gen.rrbase_xafter (runLoop Gen.rrbase_xafter { dt := t, count := n, inc := inc }
+      (bodyOf Gen.rrbase_xafter { dt := t, count := n, inc := inc }) L {}) = .list (xafterLoop t n inc L 0) := by
+    generalize runLoop Gen.rrbase_xafter { dt := t, count := n, inc := inc } (bodyOf Gen.rrbase_xafter { dt := t, count := n, inc := inc }) L {} = p at h1 h2
+    obtain ⟨r, s⟩ := p
+    simp only at h1 h2
+    subst h1
+    simp [finish, Gen.rrbase_xafter, h2]
+  have key2 : runGen Gen.rrbase_xafter { dt := t, count := n, inc := inc } L = gen (.xafter t n inc) L := key
+  exact ⟨key2, (runFast_select _ _ _ rfl).trans key2⟩
+
+/-- (translated source = model, both paths) -/
+theorem gen_contains_eq_model (x : Int) (L : List Int) :
+    runGen Gen.rrbase_contains { item := x } L = gen (.contains x) L ∧
+    runFast Gen.rrbase_contains { item := x } L = fast (.contains x) L := by
+  have h := contains_aux x L {}
+  constructor
+  · unfold runGen; rw [h]; simp only [gen]
+    cases containsLoop x L <;> simp only [Bool.false_eq_true, ↓reduceIte, finish, Gen.rrbase_contains]
+    by_cases hany : (L.any fun i => decide (i > x)) = true <;> simp [hany]
+  · simp [runFast, Gen.rrbase_contains, fast]
+
+/-- (translated source = model, both paths) -/
+theorem gen_count_eq_model (len : Option Nat) (L : List Int) (hlen : len = none ∨ len = some L.length) :
+    runCount Gen.rrbase_count len L = some (gen .count L) ∧ runCount Gen.rrbase_count len L = some (fast .count L) := by
+  rcases hlen with rfl | rfl <;> simp [runCount, Gen.rrbase_count, gen, fast]
+
+/-- (translated source = model, both paths) -/
+theorem gen_getitem_eq_model (L : List Int) :
+    (∀ i, runIndexGen Gen.rrbase_getitem L i = some (gen (.index i) L)) ∧
+    (∀ i, runIndexFast Gen.rrbase_getitem L i = some (fast (.index i) L)) ∧
+    (∀ a b c, runSliceGen Gen.rrbase_getitem L a b c = some (gen (.slice a b c) L)) ∧
+    (∀ a b c, runSliceFast Gen.rrbase_getitem L a b c = some (fast (.slice a b c) L)) := by
+  refine ⟨fun i => ?_, fun i => ?_, fun a b c => ?_, fun a b c => ?_⟩
+  · by_cases h : i ≥ 0 <;> simp [runIndexGen, Gen.rrbase_getitem, evalCmp, gen, h]
+  · simp [runIndexFast, Gen.rrbase_getitem, fast]
+  · have hp : ([(Field.step, Cmp.le, (0:Int)), (Field.start, Cmp.lt, 0), (Field.stop, Cmp.lt, 0)].any (condHolds a b c)) = sliceListPath a b c := by
+      have e1 : ∀ v : Int, decide (v ≤ 0) = decide (v < 1) := fun v => by
+        by_cases h : v ≤ 0 <;> simp [h] <;> omega
+      cases a <;> cases b <;> cases c <;> simp [condHolds, fieldOf, evalCmp, sliceListPath, optLt, e1, Bool.or_comm, Bool.or_assoc, Bool.or_left_comm]
+    simp only [runSliceGen, Gen.rrbase_getitem, hp, gen]
+    split <;> simp [fieldOf]
+  · simp [runSliceFast, Gen.rrbase_getitem, fast]
+
+end Translated
 
 /-! ### `replace` read from the source
 
